@@ -263,11 +263,10 @@ Lemma order_ok_spec o b :
   order_ok o b = true ->
   (forall c, In c o -> In c (concat b)) /\ (forall c, In c (concat b) -> In c o).
 Proof.
-  unfold order_ok, band_colors. rewrite !andb_true_iff, !forallb_forall. intros [[_ H1] H2]. split.
+  unfold order_ok. rewrite !andb_true_iff, !forallb_forall. intros [[_ H1] H2]. split.
   - intros c Hc. specialize (H1 c Hc). apply existsb_exists in H1. destruct H1 as (x & Hx & E).
-    apply nodup_In in Hx. assert (c = x) by lia. now subst.
-  - intros c Hc. assert (Hc' : In c (nodup N.eq_dec (concat b))) by (apply nodup_In; exact Hc).
-    specialize (H2 c Hc'). apply existsb_exists in H2. destruct H2 as (x & Hx & E).
+    assert (c = x) by lia. now subst.
+  - intros c Hc. specialize (H2 c Hc). apply existsb_exists in H2. destruct H2 as (x & Hx & E).
     assert (c = x) by lia. now subst.
 Qed.
 
